@@ -30,7 +30,11 @@ func main() {
 		"text is below, at and above the JSON dedup threshold of 20 bytes, several with the SAME text in different kinds) at 9 pairs " +
 		"of positions (key/key, value/key, key/value, nested key, non-first entry, four occurrences, ...), with and without a shared " +
 		"pointer, under the 6 distinct option sets (rich_data x dedup_level; quick: 3 per value by turns), and seeded random rich " +
-		"values with shared sub-values, through the real Serializer into both transports (ser value non-trivial: first key of a hash not a String)"
+		"values with shared sub-values, through the real Serializer into both transports (ser value non-trivial: first key of a hash not a String); strings whose " +
+		"CONTENT looks like JSON text (strlex.*: a backslash followed by u0026/u003c/n/quote/slash/u0000/a surrogate pair/no escape at all, " +
+		"after one, two and three backslashes, marshalled one to three times, JSON documents as strings, trailing backslashes) as members of " +
+		"every string generator above and lexeme by lexeme through six routes (top-level, array element, hash value, hash key, DataToJson " +
+		"element and key; non-trivial: the string holds a backslash), plus random and damaged candidate lexemes for the reader model"
 	c := newChecker(cfg, res)
 	pcore.SetLogger(discardLogger{}) // rich_data => false logs a warning for every value it turns into a string
 	if cfg.Replay != "" {
@@ -57,6 +61,7 @@ func replay(c *checker) {
 			Shared bool    `json:"shared"`
 			Opts   serOpts `json:"opts"`
 			Sv     *SV     `json:"sv"`
+			Route  int     `json:"route"`
 		}
 		lib.Remarshal(in, &x)
 		if x.Hint < 0 || x.Hint >= nHintModes {
@@ -80,6 +85,15 @@ func replay(c *checker) {
 			}
 		case "ser-value":
 			pcore.Do(func(ctx px.Context) { c.serValue(ctx, x.Sv, x.Opts, "replay", true) })
+		case "str-lexeme":
+			b, _ := hex.DecodeString(x.Hex)
+			if x.Route < 0 || x.Route >= len(lexRoutes) {
+				x.Route = 0
+			}
+			c.strLexeme(string(b), x.Route, "replay", true)
+		case "lexeme":
+			b, _ := hex.DecodeString(x.Hex)
+			c.lexemeTie(b)
 		case "float-class":
 			b, _ := strconv.ParseUint(x.Bits, 16, 64)
 			c.floatClass(b)
@@ -239,6 +253,8 @@ func run(c *checker, rng *lib.Rng) {
 			}
 		}
 	}
+	// ---- strings whose content looks like JSON text, lexeme by lexeme, by every route (strlex.go)
+	c.strFamily(rng.Fork(), thorough)
 	// ---- scalar oracles
 	for _, f := range poolFloats() {
 		c.floatClass(math.Float64bits(f))
